@@ -675,6 +675,8 @@ class B:
     def key(self):
         if self.op == "const":
             return ("const", self.args[0])
+        if self.op == "var":
+            return ("var", self.args[0])
         if self.op in ("lt", "le", "eq"):
             return (self.op, self.args[0].p.key())
         return (self.op,) + tuple(a.key() for a in self.args)
@@ -688,6 +690,8 @@ class B:
     def __repr__(self):
         if self.op == "const":
             return str(self.args[0])
+        if self.op == "var":
+            return f"bool:{self.args[0]}"
         if self.op in ("lt", "le", "eq"):
             sym = {"lt": "<", "le": "<=", "eq": "=="}[self.op]
             return f"({self.args[0].p!r} {sym} 0)"
